@@ -251,6 +251,30 @@ def shard(ctx, si, payload):
                 if not ok:
                     ctx.violation("channels", f"trigger threshold {thr}: the optical per-event column is not the radio column with the bright-sky instants removed (optical passing {o[2]}, radio {r[2]}, dark instants {int(dark_k.sum())} of {nk_})", dict(wit, threshold=thr))
                     break
+        # ---- the integrals are observers of the thrown geometry: after an optical and a radio integral with
+        #      real decay lengths the object still reports the path lengths, angles and instants of the
+        #      triangle checked above (seeded C13-15: `decay_to_det -= lenDec` on the object's own array)
+        if len(b):
+            nk_ = len(b)
+            snap = [np.array(x, copy=True) for x in (np.asarray(b), np.asarray(th), np.asarray(L))]
+            tsnap = (np.array(g.val_times().jd1, copy=True), np.array(g.val_times().jd2, copy=True))
+            ld = np.asarray(L, dtype=np.float64) * np.linspace(0.0, 1.2, nk_)
+            ld_in = ld.copy()
+            try:
+                for meth in ("Optical", "Radio", "Optical"):
+                    g.mcintegral(np.full(nk_, 100.0), np.full(nk_, math.cos(math.radians(1.5))), np.full(nk_, 0.5), 10.0, 1.0, 1.0, lenDec=ld, method=meth)
+                ctx.count("integral-observer", nk_)
+                now = [np.asarray(g.beta_rad()), np.asarray(g.thetas()), np.asarray(g.pathLens())]
+                for nm, a0, a1 in zip(("emergence angles", "nadir angles", "path lengths"), snap, now):
+                    if a0.shape != a1.shape or not np.array_equal(a0, a1):
+                        ctx.violation("integral-observer", f"after an optical, a radio and another optical integral with non-zero decay lengths the object's {nm} differ from the thrown ones (max change {float(np.max(np.abs(a0 - a1))) if a0.shape == a1.shape else 'shape'}): the triangle no longer holds", wit)
+                        break
+                if not (np.array_equal(tsnap[0], g.val_times().jd1) and np.array_equal(tsnap[1], g.val_times().jd2)):
+                    ctx.violation("integral-observer", "the kept instants changed after the integrals", wit)
+                if not np.array_equal(ld, ld_in):
+                    ctx.violation("integral-observer", "the decay-length argument was modified by the integral", wit)
+            except Exception as e:
+                ctx.exception("integral-observer", "target-mode integral with decay lengths raised", e, wit)
         ctx.distinct.add_rows(np.full(N, float(k)), np.asarray(times.jd1), np.asarray(times.jd2))
         if len(ctx.samples) < 2:
             ctx.sample({"config": wit, "kept": int(kept_code.sum()), "first_instant": times[0].isot, "source_alt_deg": float(np.degrees(alt_code[0])), "dark_first": bool(cut[0])})
@@ -266,6 +290,14 @@ def grid_shard(ctx, si, payload):
         cfg = make_cfg(rng, 3)
         cfg.simulation.target.source_obst = T_
         tg = cfg.simulation.target
+        # every other duration starts shortly before a UTC leap second (2016-12-31, 2015-06-30 end in
+        # 23:59:60): "equally spaced" is elapsed time, whatever the calendar does (seeded C13-16)
+        if payload["Ts"].index(T_) % 2 == 1:
+            day = ("2016-12-31", "2015-06-30", "2012-06-30")[payload["Ts"].index(T_) // 2 % 3]
+            back = min(T_ / 2, 86000.0)
+            hh, rem = divmod(int(86400 - back), 3600)
+            tg.source_date, tg.source_date_format = f"{day}T{hh:02d}:{rem // 60:02d}:{rem % 60:02d}", "isot"
+            ctx.count("times-leap-second-windows")
         g = RegionGeomToO(cfg)
         t0 = Time(tg.source_date, format=tg.source_date_format, scale="utc")
         for N in payload["Ns"]:
@@ -352,6 +384,18 @@ def limit_edges(ctx):
         except Exception as e:
             ctx.exception("limit-edges", f"generate_times with a {np.dtype(dt).name} array raised", e, {})
 
+    # positions along a target-mode trajectory (the detector's own position, by construction) do not
+    # depend on the dtype of the distance array (D45)
+    lat0, lon0 = g.find_lat_long_along_traj(np.zeros(3))
+    for dt in (np.float16, np.float32, np.int64):
+        ctx.count("limit-edges")
+        try:
+            la, lo = g.find_lat_long_along_traj(np.zeros(3, dtype=dt))
+            if not (np.array_equal(np.asarray(la, dtype=np.float64), np.asarray(lat0, dtype=np.float64)) and np.array_equal(np.asarray(lo, dtype=np.float64), np.asarray(lon0, dtype=np.float64))):
+                ctx.violation("limit-edges", f"find_lat_long_along_traj with a {np.dtype(dt).name} distance array gives ({np.asarray(la)[0]!r}, {np.asarray(lo)[0]!r}); with float64 distances ({np.asarray(lat0)[0]!r}, {np.asarray(lon0)[0]!r})", {"dtype": np.dtype(dt).name})
+        except Exception as e:
+            ctx.exception("limit-edges", f"find_lat_long_along_traj with a {np.dtype(dt).name} array raised", e, {})
+
 
 def run(ctx):
     limit_edges(ctx)
@@ -368,7 +412,7 @@ def run(ctx):
     nsh = 16
     P = [{"ks": ks[i::nsh], "ncut": ctx.pick(60, 400)} for i in range(nsh)]
     core.run_shards(ctx, "nssmon.checks.c13", "shard", P, workers=nsh, timeout=ctx.pick(1200, 6000))
-    for m in ("times", "astrometry", "occultation", "returned", "rethrow", "triangle", "dark-sky", "dark-sky-per-instant", "dark-sky-monotone", "channels", "astrometry-bodies"):
+    for m in ("times", "astrometry", "occultation", "returned", "rethrow", "triangle", "dark-sky", "dark-sky-per-instant", "dark-sky-monotone", "channels", "integral-observer", "astrometry-bodies"):
         ctx.require(m)
     if ctx.obs.get("bright_kept_instants_in_channel_test", 0) < 5:
         ctx.inconclusive_because("no bright kept instants reached the channel test")
